@@ -1225,13 +1225,19 @@ impl Scaler for HarfBuzzScaler<'_> {
                         x *= hypot(transform[0], transform[2]);
                         y *= hypot(transform[1], transform[3]);
                     }
-                    Point::new(x, y)
-                        + self
-                            .memory
+                    // Only read the delta buffer if deltas were actually
+                    // computed for this glyph; otherwise it may hold stale or
+                    // uninitialized (user provided) memory.
+                    let delta = if have_deltas {
+                        self.memory
                             .composite_deltas
                             .get(delta_base + i)
                             .copied()
                             .unwrap_or_default()
+                    } else {
+                        Default::default()
+                    };
+                    Point::new(x, y) + delta
                 }
                 Anchor::Point { base, component } => {
                     let (base_offset, component_offset) = (base as usize, component as usize);
